@@ -15,7 +15,7 @@
 (*      A_j * s_0 + B_j  [+ s_0^2 - s_1 - s_2 for exactly one of them]     *)
 (*   accept iff the two round-2 shares sum to zero.                        *)
 (***************************************************************************)
-EXTENDS GF
+EXTENDS GF, Poplar1Rounds
 
 Dot(r, v) == SumSeq([i \in 1..Len(v) |-> Mul(r[i], v[i])])
 Sq(r) == [i \in 1..Len(r) |-> Mul(r[i], r[i])]
@@ -48,13 +48,4 @@ WellFormed(y, z, a, auth, dA, dB) ==
   /\ \A i \in 1..Len(y) : z[i] = Mul(Add(auth, dA), y[i])
   /\ dB = Neg(Mul(dA, a))
 
------------------------------------------------------------------------------
-(* Round structure and message variants (what verify_next / verifier_shares_to_message match on) *)
-Kinds == {"inner", "leaf"}
-\* state = [kind, round]; message = [kind, body \in {"sketch", "done"}]
-VerifyNextOK(state, msg) ==
-  \/ (state.round = 1 /\ msg.body = "sketch" /\ msg.kind = state.kind)
-  \/ (state.round = 2 /\ msg.body = "done")
-\* combining two verifier shares: same field kind, same length, length 3 (round 1) or 1 (round 2)
-CombineOK(sh0, sh1) == sh0.kind = sh1.kind /\ sh0.len = sh1.len /\ sh0.len \in {1, 3}
 =============================================================================
